@@ -121,6 +121,9 @@ func (c *VC) storeAt(st *State, addr *Term, t types.Type, v *Term, pos token.Pos
 		return
 	}
 	hn, h := c.ptrHeap(st, t)
+	if _, isSlice := t.Underlying().(*types.Slice); isSlice {
+		c.guardSliceValue(st, v, t, c.sel(h, addr), pos, text)
+	}
 	c.checkWrite(st, hn, addr, nil, nil, pos, text)
 	nh := mkStore(h, addr, v)
 	if nh.size() > 40 {
